@@ -125,7 +125,7 @@ impl idlc_codegen::functions::ParameterVisitor for Signature {
     fn visit_input_object_array(&mut self, ident: &Ident, ty: Option<&str>, cnt: idlc_mir::Count) {
         let name = format!("(*{}_ptr)[{cnt}]", ident);
         let ty = if self.is_no_typed_objects {
-            "Object".to_string()
+            format!("{CONST} Object")
         } else {
             format!("{CONST} {}", ty.unwrap_or("Object"))
         };
